@@ -27,6 +27,40 @@ def _mismatches(ctx, path, kind):
     return summ[0]
 
 
+APALACHE = [("base", ["--init=Init", "--inv=IndInv", "--length=0"]),
+            ("step", ["--init=IndInv", "--inv=IndInv", "--length=1"]),
+            ("safety", ["--init=IndInv", "--inv=Safety", "--length=0"]),
+            ("firstwins", ["--init=IndInv", "--inv=FirstWinsAct", "--length=1"])]
+
+
+def apalache(ctx, which):
+    """inductive invariant of the slot machine, no bound on the number of operations (TraceHandoffInd.tla)"""
+    import concurrent.futures as cf
+    import shutil
+    import subprocess
+    def one(item):
+        name, args = item
+        wd = os.path.join(ctx.build, "apalache-" + name)
+        os.makedirs(wd, exist_ok=True)
+        shutil.copy(os.path.join(vf.VERIF, "spec", "TraceHandoffInd.tla"), wd)
+        try:
+            p = subprocess.run(["apalache-mc", "check"] + args + ["TraceHandoffInd.tla"], cwd=wd, stdout=subprocess.PIPE,
+                               stderr=subprocess.STDOUT, text=True, timeout=1500)
+        except subprocess.TimeoutExpired:
+            raise vf.Machinery("apalache timed out on obligation " + name)
+        ok = "The outcome is: NoError" in p.stdout and p.returncode == 0
+        shutil.rmtree(wd, ignore_errors=True)
+        if not ok:
+            raise vf.Machinery("apalache obligation %s not discharged (a bug in the spec/invariant, not a verdict):\n%s" % (name, p.stdout[-1500:]))
+        return name
+    items = [x for x in APALACHE if x[0] in which]
+    with cf.ThreadPoolExecutor(max_workers=4) as ex:
+        done = list(ex.map(one, items))
+    ctx.notes["apalache_inductive_invariant"] = dict(module="TraceHandoffInd", obligations=done, discharged=len(done),
+                                                     note="3 names, 3 waiters, generations <= 8, trace ids <= 10, unbounded number of operations")
+    ctx.log("apalache discharged: %s" % ", ".join(done))
+
+
 def run(ctx):
     q = ctx.quick
     # 1. design checks (safety + liveness of the slot machine; builder machine == declarative)
@@ -34,6 +68,8 @@ def run(ctx):
     mc2 = ctx.tlc("Builder", "MC_Builder_q.cfg" if q else "MC_Builder_t.cfg", timeout=1500)
     ctx.notes["mc_design"] = dict(slots=dict(distinct=mc1.distinct, generated=mc1.generated),
                                   builder=dict(distinct=mc2.distinct, generated=mc2.generated))
+    if not ctx.replay:
+        apalache(ctx, ["step", "safety"] if q else ["base", "step", "safety", "firstwins"])
     binp = ctx.go_test_bin("internal/tracer", ["c16"])
     # 2. slots: all operation orders (bounded) + random walks, replayed with the await hook as gate
     if ctx.replay:
